@@ -70,6 +70,19 @@ theorem graph_restore_edge_data (g : GraphT) (h : g.Inv) (id : Nat) :
   unfold GraphT.restore GraphT.getEdgeData
   rw [restoreWith_edgeData true g.snapshot.2 (by rw [(snapshot_fields g).2.1]; exact h.dataNd), (snapshot_fields g).2.1]
 
+/-- `edge_count()` is the saved one -/
+theorem graph_restore_edge_count (g : GraphT) (h : g.Inv) : (GraphT.restore g.snapshot.2).edgeCount = g.edgeCount := by
+  obtain ⟨m, hm⟩ := restoreWith_live_bound true g.snapshot.2
+  have hr := restoreWith_rows_incInv true g.snapshot.2
+  apply edgeCount_of_outgoing_eq g (GraphT.restore g.snapshot.2) h.rows hr.1 (max m g.maxNode)
+  · intro e he
+    have := h.bound e (mem_live g e he)
+    omega
+  · intro e he
+    have := hm e he
+    omega
+  · exact graph_restore_outgoing_exact g h
+
 /-- the id counter and the node counter are the saved ones: new edges continue after the saved ids -/
 theorem graph_restore_counters (g : GraphT) :
     (GraphT.restore g.snapshot.2).nextId = g.nextId ∧ (GraphT.restore g.snapshot.2).maxNode = g.maxNode :=
